@@ -300,7 +300,7 @@ Proof.
       match goal with |- context [if ?c then _ else _] => destruct c end; [|exact OKS].
       destruct (unit_name (tinfo (last (t0 :: ct) (TBlock 0%N [])))); [|exact OKS].
       match goal with |- context [match unit_name ?x with _ => _ end] => destruct (unit_name x) end;
-        [|apply OKN].
+        [|destruct (t_exits T); [apply OKN|exact OKS]].
       match goal with |- context [if ?c then _ else _] => destruct c end; [exact OKS|].
       destruct (t_exits T); [apply OKN|exact OKS].
   - split; [exact L1|exact Logic.I].
